@@ -4,39 +4,46 @@ package scratch
 
 import (
 	"fmt"
-	"reflect"
-	"runtime/debug"
+	"sync/atomic"
 	"testing"
+	"time"
 
 	sio "github.com/karagenc/socket.io-go"
-	jsonparser "github.com/karagenc/socket.io-go/parser/json"
-	"github.com/karagenc/socket.io-go/parser"
-	"github.com/karagenc/socket.io-go/parser/json/serializer/stdjson"
+	"verif/harness/proxy"
+	"verif/harness/rig"
 )
 
-func TestX(t *testing.T) {
-	types := []reflect.Type{reflect.TypeOf(&[]any{}), reflect.TypeOf(&[]map[string]any{}), reflect.TypeOf(&map[string]map[string]any{}), reflect.TypeOf(&map[string][]any{}), reflect.TypeOf(&map[string]sio.Binary{}), reflect.TypeOf(&[]sio.Binary{}), reflect.TypeOf(&map[string]any{}), reflect.TypeOf((*any)(nil))}
-	bodies := []string{`51-["ev",{"m":{"_placeholder":true,"num":0}}]`, `51-["ev",{"m":{"x":{"_placeholder":true,"num":0}}}]`, `51-["ev",[{"_placeholder":true,"num":0}]]`, `51-["ev",{"num":null,"_placeholder":true}]`, `51-["ev",{"m":[{"q":{"_placeholder":true,"num":0}}]}]`}
-	for _, b := range bodies {
-		for _, ty := range types {
-			p := jsonparser.NewCreator(0, stdjson.New())()
-			var dec parser.Decode
-			p.Add([]byte(b), func(h *parser.PacketHeader, n string, d parser.Decode) { dec = d })
-			p.Add([]byte("BIN"), func(h *parser.PacketHeader, n string, d parser.Decode) { dec = d })
-			func() {
-				defer func() {
-					if x := recover(); x != nil {
-						fmt.Printf("PANIC %s into %v: %v\n", b, ty, x)
-						_ = debug.Stack
-					}
-				}()
-				vs, err := dec(ty)
-				if err == nil && len(vs) > 0 {
-					fmt.Printf("ok    %s into %v: %v\n", b, ty, vs[0].Elem().Interface())
-				} else {
-					fmt.Printf("err   %s into %v: %v\n", b, ty, err)
-				}
-			}()
-		}
+func TestPending(t *testing.T) {
+	var got int64
+	srv, err := rig.NewServer(nil, func(io *sio.Server) {
+		io.Of("/").Use(func(s sio.ServerSocket, h *sio.Handshake) any {
+			s.OnEvent("x", func(n int) { fmt.Println("server got x", n); atomic.AddInt64(&got, 1) })
+			time.Sleep(100 * time.Millisecond)
+			return nil
+		})
+	})
+	if err != nil {
+		t.Fatal(err)
 	}
+	defer srv.Close()
+	px, _ := proxy.New(srv.TS.Listener.Addr().String())
+	defer px.Close()
+	d, mx := 20*time.Millisecond, 80*time.Millisecond
+	var j float32 = 0
+	m := rig.NewManager(px.URL(), []string{"websocket"}, &sio.ManagerConfig{ReconnectionDelay: &d, ReconnectionDelayMax: &mx, RandomizationFactor: &j})
+	s := m.Socket("/", nil)
+	s.OnConnect(func() { fmt.Println("client connect", time.Now().Format("05.000")) })
+	s.OnDisconnect(func(r sio.Reason) { fmt.Println("client disconnect", r) })
+	m.OnError(func(err error) { fmt.Println("mgr error", err) })
+	m.OnReconnectAttempt(func(n uint32) { fmt.Println("attempt", n) })
+	s.Emit("x", 1) // before Connect: buffered
+	s.Connect()
+	rig.WaitUntil(2*time.Second, func() bool { st, _ := sio.VerifClientSocketState(s); return st == 1 })
+	st, nb := sio.VerifClientSocketState(s)
+	fmt.Println("state", st, "buffered", nb)
+	s.Emit("x", 2) // while pending
+	time.Sleep(600 * time.Millisecond)
+	s.Emit("x", 3)
+	time.Sleep(300 * time.Millisecond)
+	fmt.Println("server got", atomic.LoadInt64(&got), "connected", s.Connected())
 }
